@@ -227,7 +227,7 @@ PROPS = {
                        "structurally, implementation = spec truth tables).",
     },
     "C02": {
-        "modules": ["RsddModel.Props.C02", "RsddModel.Props.C02Table", "RsddModel.Props.Tie"],
+        "modules": ["RsddModel.Props.C02", "RsddModel.Props.C02Table", "RsddModel.Props.C02Store", "RsddModel.Props.Tie"],
         "streams": [BDD_STREAM, TBL_STREAM],
         "rule": BDD_RULE,
         "trusted": ["modelled not verified: bump allocator, FxHasher, psl as u8 (PslBound hypothesis: no probe sequence reaches 256)"],
@@ -235,7 +235,11 @@ PROPS = {
         "level_text": "Kernel-checked: ROBDD canonicity with complement edges (canonicity), every builder result is ordered/reduced/regular-high "
                       "(wf_of_run), pointer equality iff semantic equality (eq_iff_sem); the robin-hood unique table refines find-or-insert on an "
                       "append-only set across any number of growths (table_refines_set, table_no_duplicates, table_index_stable), instantiated at "
-                      "the LOAD_FACTOR/DEFAULT_SIZE extracted from the source; growOrig_orphans proves the pinned grow loses nodes.",
+                      "the LOAD_FACTOR/DEFAULT_SIZE extracted from the source; growOrig_orphans proves the pinned grow loses nodes. Store level (references into "
+                      "a hash-consed node list instead of trees): the list stays append-only and duplicate-free, unfolding is injective on valid references "
+                      "(unfold_injective: pointer identity IS structural equality), every store-level operation incl. ite with any lawful reference-keyed cache, "
+                      "conditioning, quantification and composition refines the tree-level one (iteS_refines, stepS_refines, runS_refines), hence two references "
+                      "returned by any operation sequence are equal iff they denote the same function (store_eq_iff_sem, store_run_refines).",
         "level_note": "Trusted: Lean kernel; allowed axioms; harness+driver. Hypotheses: one hash function per key; psl < 256 (u8) not reachable via the builder. "
                       "Bump allocator and FxHasher modelled.",
         "explanation": "canonicity + wf_of_run + eq_iff_sem for the builder; table_refines_set/no_duplicates/index_stable for the "
